@@ -50,6 +50,7 @@ var props = map[string]propConf{
 	"C07": {Engine: "E1", QuickBudget: 12, ThorBudget: 600},
 	"C08": {Engine: "E1", QuickBudget: 12, ThorBudget: 600},
 	"C10": {Engine: "E1+E2", QuickBudget: 15, ThorBudget: 600},
+	"C11": {Engine: "E1", QuickBudget: 12, ThorBudget: 600},
 	"C12": {Engine: "E2", QuickBudget: 15, ThorBudget: 600},
 	"C09": {Engine: "E2", QuickBudget: 15, ThorBudget: 600},
 }
@@ -91,6 +92,7 @@ type description struct {
 	Level        string
 	Exhaustive   bool
 	ZeroProbesOK []string
+	MustHit      []string
 }
 
 type knownFinding struct {
@@ -509,6 +511,14 @@ func report(id, tier string, seed uint64, pc propConf, sums []*summary, b *built
 		id, tier, agg.Evaluations, len(nontriv), len(scheds), runsPerHour, agg.SimMs, len(real), len(knownSeen), wall)
 	if len(real) > 0 {
 		return 1
+	}
+	if agg.Evaluations >= 500 {
+		for _, k := range agg.Desc.MustHit {
+			if agg.Probes[k] == 0 && agg.Faults[k] == 0 {
+				fmt.Fprintf(os.Stderr, "vsim: probe %q never fired in %d runs: the batch did not reach what it claims to cover (infrastructure problem)\n", k, agg.Evaluations)
+				return 2
+			}
+		}
 	}
 	if len(nontriv) < 2 {
 		fmt.Fprintln(os.Stderr, "vsim: fewer than 2 distinct non-trivial runs: the batch explored nothing (infrastructure problem)")
